@@ -18,11 +18,11 @@ TEXT = {
          "Lean kernel; the decoder port is differentially tested against encoding/json (3.7M cases) and against the real runs; blocking reads are runtime behaviour exhibited only by the binary-level family."),
  "C04": ("Theorems: conversion to JSON terminates on every heap (cyclic or not), succeeds exactly for acyclic JSON-expressible values, preserves empties at any depth, and document -> value -> JSON tree is the identity up to key order and number formatting (`newValue_roundtrip`; tree level: the written bytes are compared with Go's decoder by the correspondence run). Correspondence: documents with empties, escapes, `%`, non-ASCII, nesting up to the decoder's 10 000 levels, shared and cyclic program-built values, through json(), -o in-process and -o FILE / -o - of the real binary (also onto existing files); Go re-parse oracle.",
          "Lean kernel; MarshalIndent/Decoder ports differentially tested against encoding/json; number formatting via the exact F64 port (tested against strconv)."),
- "C05": ("Theorems: the code-shaped evaluation of every BINARY operator equals the kind-indexed tables of DESIGN.md section 3 for all operand values (unary operators: correspondence); divide/modulo error iff the (truncated) divisor is zero; + concatenates iff an operand is a string; unset/null/container comparison rules; short-circuit; `is` never evaluates its right side. Correspondence: all 15 operators x 39^2 operand pairs, operands from variables/fields/expression results, literal spellings, numerals at the double range limits, the same operator node evaluated repeatedly with changing operands, non-UTF-8 patterns (Go regexp as oracle).",
+ "C05": ("Theorems: the code-shaped evaluation of every BINARY operator equals the kind-indexed tables of DESIGN.md section 3 for all operand values; the evaluator applies that table to the values of its operand cells, left operand first (`evalBinary_applies_binaryOp`); unary tables and `evalUnary_applies_unaryOp`; parsed programs contain only operator nodes the evaluator knows; divide/modulo error iff the (truncated) divisor is zero; + concatenates iff an operand is a string; unset/null/container comparison rules; short-circuit; `is` never evaluates its right side. Correspondence: all 15 operators x 39^2 operand pairs, operands from variables/fields/expression results, literal spellings, numerals at the double range limits, the same operator node evaluated repeatedly with changing operands, non-UTF-8 patterns (Go regexp as oracle).",
          "Lean kernel; IEEE arithmetic, ParseFloat/FormatFloat and the RE2 subset are exact Lean re-implementations differentially tested against Go."),
  "C06": ("Theorems: `table_ok` (the regenerated Pratt table has the documented levels); all pairs (225) and triples (3375) of binary operators, assignment pairs and parenthesised pairs by complete kernel enumeration; `parse_render` / `parse_render_full` / `parse_render_redundant`: for expressions of ANY depth over the whole expression grammar except regex literals and match, parser ∘ printer = id for minimal, full and arbitrarily redundant parenthesisation; left/right associativity corollaries. Correspondence: random expression trees in five renderings incl. tight (no blanks), prefix/suffix chains on every atom kind, regex literals as operands everywhere; same AST and same value.",
          "Lean kernel; regenerated facts tie the table (parse functions identified by role) and the operand precedences to src/parser.go."),
- "C07": ("Theorems: whole-loop characterisations for the real evaluator at any fuel: `while_unrolled`, `for_k_iterations` (post after completed and continued iterations, not after break), `forIn_eq_fold` with every item visited once in order (sorted keys for objects, byte offsets for strings), innermost-loop discipline through any nesting (`abnormal_end_propagates`, `loop_statements_confine`), `dangling_else_any` (parser), `return_from_any_nesting`, `fuel_irrelevant`; plus one-step unfolding laws. Correspondence: nested structured programs with a print trace after every statement and jumps at random positions (reference interpreter in Go), next/exit from patterns and special rules over several roots, loops of up to 10^6 iterations, write-ahead into iterated containers.",
+ "C07": ("Theorems: whole-loop characterisations for the real evaluator at any fuel: `while_unrolled`, `for_k_iterations` (post after completed and continued iterations, not after break), `forIn_eq_fold` with every item visited once in order (sorted keys for objects, byte offsets for strings), innermost-loop discipline through any nesting (`abnormal_end_propagates`, `loop_statements_confine`), `dangling_else_any` (parser), `return_from_any_nesting`, `fuel_irrelevant`, `for_break_at` / `for_propagates_at` (a for statement ending in iteration k+1 ends in the state raised, post not run again), `nested_loop_round`; plus one-step unfolding laws and kernel-checked `Rounds 3` instances. Correspondence: nested structured programs with a print trace after every statement and jumps at random positions (reference interpreter in Go), next/exit from patterns and special rules over several roots, loops of up to 10^6 iterations, write-ahead into iterated containers.",
          "Lean kernel; one corner of Go's slice semantics (for-in over an array that the body pops and then pushes) is deliberately unmodelled (DESIGN section 2) and excluded from the generators."),
  "C08": ("Theorems (master invariant, for every outcome of every evaluator function): the frame stack is restored exactly, deeper frames untouched, locals vanish, $ and root untouched, parameters bound by position to fresh cells holding copies (C09 `params_bound_fresh`, `call_args_are_copies`), the return slot, depth counts nesting only. Correspondence: functions of arity 0-4 with 0-6 arguments in 27 positions, argument lists with side effects on earlier arguments, names clashing with builtins/globals/parameters, missing members as arguments, match bodies left by every exit path, recursion, histories of 10k-200k records with the frame depth read back (hook).",
          "Lean kernel; model validated by the correspondence run."),
@@ -32,13 +32,13 @@ TEXT = {
          "Lean kernel; absence of hidden state in Go is argued from the regenerated facts and the repetition families, not proved."),
  "C11": ("Theorems: a syntax error pre-empts all output; `run_fault_discipline`: for every program, selectors and input, a run that ends successfully (or with a JSON error) raised no runtime fault anywhere, one that ends in a runtime error raised exactly one and printed nothing after it (ghost fault counter through evaluator and driver); output only appended; static rejections. Correspondence: illegal bytes / control bytes / unterminated literals spliced at every token boundary, 140 fault kinds x 141 evaluated positions, failing stores, unknown $-names, invalid regexes of every kind, output before a fault through the real binary.",
          "Lean kernel; model validated by the correspondence run."),
- "C12": ("Theorems: GetLineAndCol equals the split-at-newline specification for every offset; provenance: every position any run can report — syntax, lexical, runtime, program or -r selector — is the offset of a token of the text it is reported with (or of the offending byte of a lexical error), by inductions over the 14 parser and 15 evaluator functions (`reported_position_in_text`, `runtime_error_pos_is_token`); illegal characters exactly on the byte. Correspondence: every byte offset of multi-line texts with hostile prefixes (multi-line literals, CRLF, multi-byte), error positions of every fault kind incl. the depth limit through every frame parity, selector faults, and the binary's three diagnostic lines parsed back (several files, -f, leading blank lines).",
+ "C12": ("Theorems: GetLineAndCol equals the split-at-newline specification for every offset; provenance: every position any run can report — syntax, lexical, runtime, program or -r selector — is the offset of a token of the text it is reported with (or of the offending byte of a lexical error), by inductions over the 14 parser and 15 evaluator functions (`reported_position_in_text`, `runtime_error_pos_is_token`); illegal characters exactly on the byte; WHICH token each of the 23 runtime-fault sites blames (`blame_*`, one per site, compared with the token src/evaluator.go passes; `blamed_token_in_node`; `blame_table`). Correspondence: every byte offset of multi-line texts with hostile prefixes (multi-line literals, CRLF, multi-byte), error positions of every fault kind incl. the depth limit through every frame parity, selector faults, and the binary's three diagnostic lines parsed back (several files, -f, leading blank lines).",
          "Lean kernel; the theorems say the reported offset is the offset of SOME token of the text; WHICH token a given fault blames (the column falls inside the offending construct) is validated by correspondence (line/col/src computed from the generated text), not proved."),
  "C13": ("Theorems: blanks and comments are invisible to the lexer; number / keyword / string token shapes; escapes; the parser is parametric in token positions; `parse_never_oof`: the parser's fuel always suffices (every text parses or is a syntax error), so token-equivalent texts parse alike (`layout_invariant_parses`); `newline_insertion_bytes`: in ANY program text a newline (or blanks/comment + newline) may be inserted at any token boundary as the parser lexed it, except after print/return, after a print-level comma and before `;`, without changing the AST (each exclusion shown necessary); `semicolon_for_newline_bytes`. Correspondence: 8+ layouts of each token sequence incl. CR/LF/tabs/comments, forbidden gaps, all 256 bytes in 19 lexer contexts, words/numbers adjacency, string literals.",
          "Lean kernel; the byte-level theorems hold for rule tables satisfying a decidable condition that the real table meets (checked by decide)."),
- "C14": ("Theorems about a model of the command line (exit status, -o FILE = -o -, -f = inline, stdin = file, missing file, order of files and selectors) and `r_behaves_as_beginfile_rule(_builtins)(_cli)`: for selectors built from $, literals, member/index chains, array/object literals, every method call, operators and match expressions (and the builtins when the program never rebinds them), and programs whose ENDFILE rules do not read $, the whole run with -r E and the run with the extra rule BEGINFILE { $ = E } have the same outcome, output, JSON and exit status — a relational induction over the evaluator up to renaming of cell ids. Correspondence: the real binary against library and model (hostile arguments, existing -o targets, stdin as pipe/file/socket/closed, FIFOs).",
+ "C14": ("Theorems about a model of the command line (exit status, -o FILE = -o -, -f = inline, stdin = file, missing file, order of files and selectors, `-o` with several inputs is an error after the program's complete output for every argv order) and `r_behaves_as_beginfile_rule(_builtins)(_cli)`: for selectors built from $, literals, member/index chains, array/object literals, every method call, operators and match expressions (and the builtins when the program never rebinds them), and programs whose ENDFILE rules do not read $, the whole run with -r E and the run with the extra rule BEGINFILE { $ = E } have the same outcome, output, JSON and exit status — a relational induction over the evaluator up to renaming of cell ids. Correspondence: the real binary against library and model (hostile arguments, existing -o targets, stdin as pipe/file/socket/closed, FIFOs).",
          "Lean kernel for the wrapper model; flag parsing by package flag and the OS are trusted; several -r flags are covered by correspondence (their order is a C02 theorem)."),
- "C15": ("Theorems: push/pop/popfirst/length refine the ideal list for any sequence of these operations (index writes and methods nested in arguments: correspondence), contains agrees with == element by element, sort returns a stably sorted permutation and leaves the receiver untouched. Correspondence: random operation sequences on aliased arrays with nested method calls, the same call site active twice, histories of up to 5000 elements across capacity thresholds; ideal-list oracle.",
+ "C15": ("Theorems: push/pop/popfirst/length refine the ideal list for any sequence of these operations; index writes refine the ideal `setIdx` for every index class (inside, at/past the end with null padding, beyond the fill limit, negative from the end, before the start) at primitive and evaluator level and inside operation sequences (`index_assign_refines`, `ops_refine_lists_w`; start state unshared; methods nested in arguments: correspondence), contains agrees with == element by element, sort returns a stably sorted permutation and leaves the receiver untouched. Correspondence: random operation sequences on aliased arrays with nested method calls, the same call site active twice, histories of up to 5000 elements across capacity thresholds; ideal-list oracle.",
          "Lean kernel; model validated by the correspondence run."),
  "C16": ("Theorems: split/join laws, pluck selects own members only, ASCII case mapping, num() = nearest double / null, floor/ceil/round specification, totality of every native on every receiver kind. Correspondence: pools of receivers and arguments, digit strings of every length around int32/int53/int64/uint64 boundaries; oracles: join equals the string, Go math.* and strconv.ParseFloat on the same input.",
          "Lean kernel; Unicode case mapping outside ASCII is unmodelled (skipped and counted)."),
